@@ -398,8 +398,49 @@ fn cmd_compile(v: &Value) -> Value {
             )
         });
     }
-    out["lin"] = guarded(|| linearize_json(model, want));
+    let replay = v.get("replay").cloned().unwrap_or(Value::Null);
+    out["lin"] = guarded(|| match Linearizer::linearize(model) {
+        Ok(l) => {
+            let mut o = json!({"ok": lm_json(&l)});
+            extras_lm(&l, want, &mut o);
+            replay_lm(&l, &replay, &mut o);
+            o
+        }
+        Err(e) => json!({"err": e.to_string(), "kind": lin_err_kind(&e)}),
+    });
     out
+}
+
+/// Replay helpers on a REAL compiled linear model:
+/// "points": [{name: value}] -> real calc_constraints / calc_objective at each point;
+/// "pin": {name: value} -> adds `name = value` rows and asks the real MILP solver.
+pub fn replay_lm(l: &LinearModel, replay: &Value, o: &mut Value) {
+    if let Some(points) = replay.get("points").and_then(|p| p.as_array()) {
+        let r: Vec<Value> = points
+            .iter()
+            .map(|pt| {
+                let vals: Option<Vec<f64>> = l.variables().iter().map(|n| pt.get(n).map(fnum)).collect();
+                match vals {
+                    Some(vals) => json!({"rows": l.calc_constraints(&vals).iter().map(|(_, x)| f(*x)).collect::<Vec<_>>(),
+                        "obj": f(l.calc_objective(&vals))}),
+                    None => json!({"missing": true}),
+                }
+            })
+            .collect();
+        o["points"] = Value::Array(r);
+    }
+    if let Some(pin) = replay.get("pin").and_then(|p| p.as_object()) {
+        let mut m = l.clone();
+        let n = m.variables().len();
+        for (name, val) in pin {
+            if let Some(i) = m.variables().iter().position(|x| x == name) {
+                let mut a = vec![0.0; n];
+                a[i] = 1.0;
+                m.add_constraint(a, Comparison::Equal, fnum(val));
+            }
+        }
+        o["pin"] = guarded(|| sol_json(solve_milp_lp_problem(&m)));
+    }
 }
 
 fn cmd_text(v: &Value) -> Value {
@@ -465,6 +506,9 @@ fn cmd_lm(v: &Value) -> Value {
         Err(_) => return json!({"build_panic": true}),
     };
     let mut out = json!({"lm": lm_json(&m)});
+    if let Some(r) = v.get("replay") {
+        replay_lm(&m, r, &mut out);
+    }
     for op in v["ops"].as_array().unwrap() {
         let (name, arg) = match op {
             Value::String(s) => (s.as_str(), Value::Null),
